@@ -315,3 +315,4 @@ def check(ctx):
         ctx.missing("R-SIB", "may::io::sys::IoData", "drop-order/deregister-before-close", "expected >= 6 structs owning an IoData and an fd (TcpStream, TcpListener, UdpSocket, CoIo, 2 connectors), found %d" % n_own)
     shared.io_helper_forwarding(ctx)
     shared.registered_sockets_are_nonblocking(ctx)
+    shared.worker_run_budget_rules(ctx)
